@@ -220,6 +220,8 @@ func exploreDeviations(c *vx.Ctx, props string, maxDev int, st *exploreStats, ea
 
 const pairWindow = 8
 
+const withSplitSeeds = true
+
 func devPos(d string) int {
 	n := 0
 	for _, ch := range d {
@@ -242,6 +244,10 @@ func exploreBFS(c *vx.Ctx, props string, seeds []int, depth int, alpha []string,
 	var frontier []node
 	for _, sd := range seeds {
 		frontier = append(frontier, node{sd, nil})
+	}
+	// Seeds that the script never passes through: split votes (a vote majority present without consensus).
+	if withSplitSeeds {
+		frontier = append(frontier, node{7, []string{"V:c:3:nil"}}, node{4, []string{"V:p:3:nil"}})
 	}
 	levelDone := -1
 	for d := 0; d <= depth && len(frontier) > 0; d++ {
